@@ -96,11 +96,11 @@ package resharing
 //@ define rs3slot2(m) = (!isnil(m) && istype(msgcontent(m), "*eddsa/resharing.DGRound3Message2") && cast(msgcontent(m), "*eddsa/resharing.DGRound3Message2") != nil && len(cast(msgcontent(m), "*eddsa/resharing.DGRound3Message2").VDecommitment) <= 8192)
 
 // a de-committed, cofactor-cleared row of Feldman commitments of one old member
-//@ define rs4row(round, s) = (len(s) == round.ReSharingParameters.newThreshold + 1 && (forall c in 0..len(s) :: (validPoint(s[c]) && s[c].curve == round.ReSharingParameters.Parameters.ec)))
+//@ define rs4row(round, s) = (len(s) == round.ReSharingParameters.newThreshold + 1 && (forall c in 0..len(s) :: (validPoint(s[c]) && s[c].curve == round.ReSharingParameters.Parameters.ec && torsionfree(round.ReSharingParameters.Parameters.ec, px(s[c]), py(s[c])))))
 //@ func (*round4).Start
 //@   deadpoints 3
 //@   note the two error branches after ECPoint.Add are unreachable on the Edwards curve (lemma L-edwards-closed)
-//@   props C06 C05 C04
+//@   props C06 C05 C04 C17
 //@   requires round != nil && round.round3 != nil && round.round3.round2 != nil && round.round3.round2.round1 != nil && round.round3.round2.round1.base != nil && edRsWF(round) && edRsIdx(round)
 //@   requires [rounds-1-and-3-complete] rsNew(round.ReSharingParameters) ==> (forall j in 0..rsOldN(round) :: (rs1slotFull(round.temp.dgRound1Messages[j]) && rs3slot1(round.temp.dgRound3Message1s[j]) && rs3slot2(round.temp.dgRound3Message2s[j])))
 //@   requires [old-committee-nonempty] rsNew(round.ReSharingParameters) ==> rsOldN(round) >= 1
@@ -116,6 +116,7 @@ package resharing
 //@   loop 1 invariant forall k in 0..j :: rs4row(round, vjc[k])
 //@   loop 1 invariant fresh(vj) && arr(vj) != arr(vjc) && len(vj) == round.ReSharingParameters.newThreshold + 1 && (forall c in 0..len(vj) :: (validPoint(vj[c]) && vj[c].curve == round.ReSharingParameters.Parameters.ec))
 //@   loop 1 invariant forall k in 0..j :: arr(vjc[k]) != arr(vj)
+//@   loop 1 invariant [C17.every-commitment-handed-to-the-share-check-is-cofactor-cleared] forall c in 0..$iter :: torsionfree(round.ReSharingParameters.Parameters.ec, px(vj[c]), py(vj[c]))
 //@   loop 2 invariant round.save.EDDSAPub != nil && wfPoint(round.save.EDDSAPub) && rsNew(round.ReSharingParameters) && 0 <= c && c <= round.ReSharingParameters.newThreshold + 1 && len(vjc) == rsOldN(round) && fresh(vjc) && len(Vc) == round.ReSharingParameters.newThreshold + 1 && fresh(Vc) && newXi != nil && modQ != nil && val(modQ) == curveN(round.ReSharingParameters.Parameters.ec) && shareIntact(round)
 //@   loop 2 invariant (forall k in 0..len(vjc) :: rs4row(round, vjc[k])) && (forall k in 0..len(vjc) :: arr(vjc[k]) != arr(Vc))
 //@   loop 2 invariant forall k in 0..c :: (validPoint(Vc[k]) && Vc[k].curve == round.ReSharingParameters.Parameters.ec)
